@@ -261,6 +261,62 @@ ADF15_CALL = {"hydrogen": ("hydrogen", 0), "hydrogen-like": ("carbon", 5), "full
 ADF11_TYPES = ["scd", "acd", "ccd", "plt", "prb", "prc"]
 
 
+def square_cases(rng, reps=1):
+    """Tables whose axis lengths COINCIDE (neb == ndt, also == ntt; n_ne == n_te; all five ADF12 grids equal), with values that
+    are not symmetric under transposition: a swap of axes that a shape test cannot see has a failing input here."""
+    out = []
+
+    def asym(rows):
+        n = len(rows)
+        return any(rows[i][j] != rows[j][i] for i in range(n) for j in range(n) if i != j and len(rows[i]) == n)
+
+    for rep in range(reps):
+        for k, which in enumerate(("adf21", "adf22bmp", "adf22bme")):
+            n = rng.choice([2, 3, 8, 9] if k != rep % 3 else [2, 3])
+            while True:
+                t = W.gen_adf2x(rng, neb=n, ndt=n, ntt=n if k == rep % 3 else None)
+                if asym(t["sv"]):
+                    break
+            out.append(mk_adf2x(which, t, "square grid %dx%d/%d (neb == ndt)" % (n, n, len(t["tt"]))))
+        for fmt in ("hydrogen", "hydrogen-like", "full"):
+            n = rng.choice([2, 3, 8, 9])
+            while True:
+                t = W.gen_adf15(rng, fmt, nblocks=rng.choice([1, 2]), nd=n, nt=n)
+                if all(asym(b["rows"]) for b in t["blocks"]):
+                    break
+            out.append(mk_adf15(t, "%s square blocks %dx%d (n_ne == n_te)" % (fmt, n, n), *ADF15_CALL[fmt]))
+        for resolved in (False, True):
+            n = rng.choice([2, 3, 9]) if not resolved else rng.choice([2, 3, 8, 9])
+            while True:
+                t = W.gen_adf11(rng, nd=n, nt=n, resolved=resolved, element=rng.choice(W.ELEMENTS[1:4]), safe=True)
+                if all(asym(b["rows"]) for b in t["blocks"]) and len(t["blocks"]) <= 4:
+                    break
+            out.append(mk_adf11(t, "%s square blocks %dx%d (n_ne == n_te)" % ("resolved" if resolved else "unresolved", n, n),
+                                install=rng.choice(ADF11_TYPES)))
+        n = rng.choice([2, 6, 7, 12])
+        out.append(mk_adf12(W.gen_adf12(rng, nblocks=2, equal=n), "all five grids of length %d" % n))
+    for c in out:
+        c.square = True
+    return out
+
+
+def is_square(c):
+    """axis lengths of the 2-D tables of the case coincide"""
+    t = c.tokens
+    try:
+        if c.kind.startswith("adf2"):
+            return len(t["eb"]) == len(t["dt"])
+        if c.kind == "adf11":
+            return len(t["dens"]) == len(t["temps"])
+        if c.kind == "adf15":
+            return bool(t["blocks"]) and all(len(b["dens"]) == len(b["temps"]) for b in t["blocks"])
+        if c.kind == "adf12":
+            return bool(t) and all(len({len(b[k]) for k in ("ener", "tiev", "densi", "zeff", "bmag")}) == 1 for b in t)
+    except (KeyError, TypeError):
+        pass
+    return False
+
+
 def multi_digit_cases(rng, formats=("adf2x", "adf12", "adf11", "adf15"), reps=1, python_only=False, quick=True):
     """Files in which every count / index / charge field of the headers has two or three digits somewhere: all Z charge-state
     blocks of elements with Z >= 10 (Z1 = 10 ... 36), two-digit IPRT/IGRD in resolved ADF11, grids with >= 10 and >= 100 points,
@@ -518,6 +574,8 @@ def gen_cases(ctx, E):
     cases.append(c)
     # ---- multi-digit header fields, every format, both tiers ------------------------------------------------
     cases += multi_digit_cases(rng, reps=1 if q else 3, quick=q)
+    # ---- coinciding axis lengths (square tables), every family, both tiers -------------------------------------------
+    cases += square_cases(rng, reps=1 if q else 4)
     return cases
 
 
@@ -1218,6 +1276,9 @@ def run(ctx):
                          "install_readback_roundtrips": n_roundtrip,
                          "history_install_steps_on_shared_repositories": n_hist_steps, "files_parsed_twice": n_reparse,
                          "adf2x_grids_not_multiple_of_8": not_mult,
+                         "square_vs_non_square_tables": {k: {"square (axis lengths coincide)": sum(1 for c in cases if c.kind == k and is_square(c)),
+                                                             "non-square": sum(1 for c in cases if c.kind == k and not is_square(c))}
+                                                         for k in sorted({c.kind for c in cases})},
                          "adf11_resolved": sum(1 for c in cases if c.kind == "adf11" and c.tokens.get("resolved")),
                          "adf15_formats": {f: sum(1 for c in cases if c.kind == "adf15" and c.tokens["fmt"] == f) for f in ("hydrogen", "hydrogen-like", "full")},
                          "adf15_types": {t: sum(1 for c in cases if c.kind == "adf15" for b in c.tokens["blocks"] if b["type"] == t) for t in ("EXCIT", "RECOM", "CHEXC")},
